@@ -61,6 +61,9 @@ type G struct {
 	R    *prng.Rand
 	T    ad.ScalarType
 	args []Arg
+	// Boundary: draw the sentinel / boundary values of the integer parameters
+	// (n = -1, 0, 1, a single component, a single state)
+	Boundary bool
 }
 
 func (g *G) S(name string, v float64) ad.Scalar {
@@ -220,13 +223,22 @@ var scalarFamilies = []Family{
 	}},
 	{"scalar:binomial distribution", Scalar, func(g *G) (*Instance, error) {
 		n := g.R.Range(1, 20)
+		variant := "plain"
+		if g.Boundary {
+			n = g.R.Intn(2)
+			variant = fmt.Sprintf("n=%d", n)
+		}
 		d, err := sd.NewBinomialDistribution(g.S("theta", g.prob()), n)
-		return g.inst("scalar:binomial distribution", "plain", true, Scalar, d, err, scalars(float64(g.R.Intn(n+1)), float64(g.R.Intn(n+1))))
+		return g.inst("scalar:binomial distribution", variant, true, Scalar, d, err, scalars(float64(g.R.Intn(n+1)), float64(g.R.Intn(n+1))))
 	}},
 	{"scalar:categorical distribution", Scalar, func(g *G) (*Instance, error) {
 		k := g.R.Range(2, 5)
+		variant := "plain"
+		if g.Boundary {
+			k, variant = 1, "K=1"
+		}
 		d, err := sd.NewCategoricalDistribution(g.V("theta", g.weights(k, false)))
-		in, e := g.inst("scalar:categorical distribution", "plain", true, Scalar, d, err, scalars(float64(g.R.Intn(k)), float64(g.R.Intn(k))))
+		in, e := g.inst("scalar:categorical distribution", variant, true, Scalar, d, err, scalars(float64(g.R.Intn(k)), float64(g.R.Intn(k))))
 		if in != nil {
 			in.Transformed, in.Group = true, k
 		}
@@ -319,12 +331,16 @@ var scalarFamilies = []Family{
 	}},
 	{"scalar:mixture distribution", Scalar, func(g *G) (*Instance, error) {
 		k := g.R.Range(2, 4)
+		variant := "nested"
+		if g.Boundary {
+			k, variant = 1, "1-component"
+		}
 		edist := make([]st.ScalarPdf, k)
 		for i := range edist {
 			edist[i] = g.realScalar(fmt.Sprintf("edist[%d]", i))
 		}
 		d, err := sd.NewMixture(g.V("weights", g.weights(k, true)), edist)
-		in, e := g.inst("scalar:mixture distribution", "nested", true, Scalar, d, err, g.realProbes(2))
+		in, e := g.inst("scalar:mixture distribution", variant, true, Scalar, d, err, g.realProbes(2))
 		if in != nil {
 			in.Transformed, in.Group = true, k
 		}
@@ -357,12 +373,18 @@ type hmmSpec struct {
 
 func (g *G) hmmSpec(minStates int) hmmSpec {
 	n := g.R.Range(minStates, 4)
+	if g.Boundary {
+		n = 1
+	}
 	h := hmmSpec{n: n, pi: g.weights(n, true), tr: make([]float64, n*n)}
 	for i := 0; i < n; i++ {
 		copy(h.tr[i*n:], g.weights(n, true))
 	}
 	h.nEdist = n
 	h.variant = "plain"
+	if g.Boundary {
+		h.variant = "single-state"
+	}
 	if g.R.Chance(0.3) && n >= 3 {
 		h.stateMap = make([]int, n)
 		for i := range h.stateMap {
@@ -506,8 +528,19 @@ var vectorFamilies = []Family{
 	}},
 	{"vector:scalar iid", Vector, func(g *G) (*Instance, error) {
 		n := g.R.Range(1, 4)
+		variant := "nested"
+		probes := g.vecProbes(n)
+		if g.Boundary {
+			n = g.R.Range(-1, 1)
+			variant = fmt.Sprintf("n=%d", n)
+			if n == -1 { // variable length: any vector is in the domain
+				probes = []any{cvec(g.reals(g.R.Range(0, 4))), cvec(g.reals(g.R.Range(1, 5)))}
+			} else {
+				probes = g.vecProbes(n)
+			}
+		}
 		d, err := vd.NewScalarIid(g.realScalar("distribution"), n)
-		return g.inst("vector:scalar iid", "nested", true, Vector, d, err, g.vecProbes(n))
+		return g.inst("vector:scalar iid", variant, true, Vector, d, err, probes)
 	}},
 	{"vector:vector id", Vector, func(g *G) (*Instance, error) {
 		n1, n2 := g.R.Range(1, 2), g.R.Range(1, 2)
@@ -516,13 +549,35 @@ var vectorFamilies = []Family{
 	}},
 	{"vector:vector iid", Vector, func(g *G) (*Instance, error) {
 		n, k := g.R.Range(1, 2), g.R.Range(1, 3)
+		variant := "nested"
+		if g.Boundary {
+			k = g.R.Intn(2)
+			variant = fmt.Sprintf("n=%d*dim", k)
+		}
 		d, err := vd.NewVectorIid(g.vnormal("distribution", n), n*k)
-		return g.inst("vector:vector iid", "nested", true, Vector, d, err, g.vecProbes(n*k))
+		return g.inst("vector:vector iid", variant, true, Vector, d, err, g.vecProbes(n*k))
 	}},
 	{"vector:mixture distribution", Vector, func(g *G) (*Instance, error) {
 		k, n := g.R.Range(2, 3), g.R.Range(1, 2)
 		edist := make([]st.VectorPdf, k)
 		variant := "of-normal"
+		if g.Boundary && g.R.Bool() {
+			// nested variable-length wrappers
+			for i := range edist {
+				d, _ := vd.NewScalarIid(g.realScalar(fmt.Sprintf("edist[%d].distribution", i)), -1)
+				edist[i] = d
+			}
+			d, err := vd.NewMixture(g.V("weights", g.weights(k, true)), edist)
+			in, e := g.inst("vector:mixture distribution", "of-scalar-iid(n=-1)", true, Vector, d, err, []any{cvec(g.reals(g.R.Range(0, 4))), cvec(g.reals(g.R.Range(1, 5)))})
+			if in != nil {
+				in.Transformed, in.Group = true, k
+			}
+			return in, e
+		}
+		if g.Boundary {
+			k = 1
+			edist = edist[:1]
+		}
 		for i := range edist {
 			if g.R.Chance(0.3) {
 				d, _ := vd.NewScalarId(g.scalarEdist(n)...)
@@ -531,6 +586,9 @@ var vectorFamilies = []Family{
 			} else {
 				edist[i] = g.vnormal(fmt.Sprintf("edist[%d]", i), n)
 			}
+		}
+		if g.Boundary {
+			variant += ",1-component"
 		}
 		d, err := vd.NewMixture(g.V("weights", g.weights(k, true)), edist)
 		in, e := g.inst("vector:mixture distribution", variant, true, Vector, d, err, g.vecProbes(n))
@@ -629,11 +687,20 @@ var matrixFamilies = []Family{
 	{"matrix:vector iid", Matrix, func(g *G) (*Instance, error) {
 		n := g.R.Range(1, 2)
 		k := n * g.R.Range(1, 3) // the constructor wants the row count to be a multiple of the column count
+		variant := "nested"
+		if g.Boundary {
+			k = n * g.R.Intn(2)
+			variant = fmt.Sprintf("rows=%d*dim", k/n)
+		}
 		d, err := md.NewVectorIid(g.vnormal("distribution", n), k)
-		return g.inst("matrix:vector iid", "nested", true, Matrix, d, err, g.matProbes(k, n))
+		return g.inst("matrix:vector iid", variant, true, Matrix, d, err, g.matProbes(k, n))
 	}},
 	{"matrix:mixture distribution", Matrix, func(g *G) (*Instance, error) {
 		k, rows, n := g.R.Range(2, 3), g.R.Range(1, 2), g.R.Range(1, 2)
+		variantM := "of-wrapped"
+		if g.Boundary {
+			k, variantM = 1, "of-wrapped,1-component"
+		}
 		edist := make([]st.MatrixPdf, k)
 		for i := range edist {
 			d, err := md.NewVectorId(g.vecEdist(rows, n)...)
@@ -643,7 +710,7 @@ var matrixFamilies = []Family{
 			edist[i] = d
 		}
 		d, err := md.NewMixture(g.V("weights", g.weights(k, true)), edist)
-		in, e := g.inst("matrix:mixture distribution", "of-wrapped", true, Matrix, d, err, g.matProbes(rows, n))
+		in, e := g.inst("matrix:mixture distribution", variantM, true, Matrix, d, err, g.matProbes(rows, n))
 		if in != nil {
 			in.Transformed, in.Group = true, k
 		}
@@ -727,7 +794,9 @@ func Generate(f Family, r *prng.Rand, t ad.ScalarType) (in *Instance, err error)
 			in, err = nil, fmt.Errorf("constructor panics: %v", p)
 		}
 	}()
-	return f.Build(&G{R: r, T: t})
+	g := &G{R: r, T: t}
+	g.Boundary = r.Chance(0.3)
+	return f.Build(g)
 }
 
 /* evaluation
